@@ -39,6 +39,22 @@ CLAIMED = {
         "float rounding bounded by tolerance 1e-9, not modelled; harness. No axioms.",
         "DESIGN.md section 5, C02",
     ),
+    "C08": (
+        "Coq/MathComp proofs (identity/negative identity/zero/absorbing laws per side, unitarity <=> unbinding, guard "
+        "soundness, no left identity in VTB) over a hand-written executable model; exhaustive correspondence of "
+        "algebra x element x sidedness x d evaluated in Coq at Z",
+        "Theorems for every commutative ring, dimension and vector: each element returned for a side satisfies that side's "
+        "law (HRR both sides incl. absorbing element: unit length, bind v z = (sum v) z; VTB right identity / negative "
+        "identity / zero with the exact sqrt radicands, refusal for LEFT, deprecation flag for TWO_SIDED, and a proof that "
+        "VTB has no left identity for s >= 2; TVTB two-sided), inverse undoes binding on a side for all a iff v is unitary "
+        "(HRR: v*~v = e0; VTB/TVTB: s V^T V = I resp. s V V^T = I, equivalent over commutative unit rings), inverting twice "
+        "is the identity, inverse = inversion matrix. Tie: exhaustive outcome/warning/vector table for all valid d <= 36 "
+        "(thorough 64), elements bound to random vectors on both sides, inverse round trips on exactly unitary and random "
+        "vectors for all three sidedness values, SemanticPointer wrappers and vocabulary special names.",
+        "Trusted: Coq kernel + vm_compute; models Model/Hrr.v, Model/Vtb.v; irrational factors carried as (core, radicand) "
+        "and compared through integer square roots; float rounding bounded by tolerance; harness. No axioms.",
+        "DESIGN.md section 5, C08",
+    ),
 }
 
 NOT_YET = "not yet built in this revision of /verif (design in DESIGN.md section 5); no check is claimed"
